@@ -5,6 +5,16 @@ ROOT = os.path.dirname(os.path.dirname(os.path.abspath(__file__)))
 
 CHECKS = {
  # id: (level, technique, text, note, design_ref)
+ "C01": ("exploration",
+         "differential monitor: real parser+engine vs an independent three-valued reference evaluator, judged locally at every observed firing, non-firing and assignment",
+         "GRL text is generated from the grammar of the typed core, parsed and executed by the real engine through execute_with_callback; every firing, every rule passed over between two firings and every stored value is judged against the reference evaluator on the fact snapshots the engine really was in (pre-state = snapshot after the previous firing). Held = no judged firing/non-firing/assignment of any explored run disagreed; operand combinations the documentation leaves open are skipped and counted, not judged.",
+         "Trusts the reference semantics of DESIGN.md §4.2 and the harness's GRL printer; assumes rank-order consideration within passes (checked by C02/C03; a contradicting run is not judged and makes the check inconclusive). Says nothing about plugins, functions, pattern CEs, method calls.",
+         "DESIGN.md §5 C01"),
+ "C03": ("exploration",
+         "trace monitor over result counters, callback count, per-pass firing counts (hook H2) and a reference fixpoint check; logical step bounds decide termination",
+         "Self-triggering, mutually triggering and quiescing programs are run with every max_cycles in 0..=64 (a fixed family exhaustively over that grid, random programs beyond); the monitor checks cycle_count and passes against the bound, fired count against callbacks, that only the last pass may fire nothing and that an early stop happened exactly after an empty pass, and re-evaluates every still-eligible rule on the final facts with the reference evaluator. A run that makes more than max_cycles+1 passes or more than max_cycles x #rules firings is stopped by the monitor (logical bound); shards run in child processes with a CPU limit as back-stop.",
+         "Trusts hook H2 for pass boundaries (no markers => inconclusive), the reference evaluator for the fixpoint clause, and a fresh engine per run (no-loop tracking starts empty).",
+         "DESIGN.md §5 C03"),
  "C13": ("exploration",
          "online step monitor (invariant + conservation) over exhaustive and random event sequences",
          "Runs WatermarkedStream on every timestamp sequence of a small dense domain (exhaustively up to a stated length, randomly beyond) under every watermark/late-data configuration and checks, after every add_event, monotonicity, the watermark value, the late/on-time decision, routing by unique event id and the counter identities. Held = no step of any explored sequence broke a clause.",
